@@ -134,6 +134,15 @@ def run(chk, repo, tier):
     C01b.run_a8_truth(chk, A8, repo)
     A10 = chk.rule('A10', 'record parsing: lists combined element-wise come from the same accumulation level', floor=1)
     C01b.run_a10(chk, A10, repo)
+    A11 = chk.rule('A11', 'protected functions (PLOG, PEXP, PSQRT, PDZ, PZR, PNP, PHE, PNG): guard, protected value and '
+                          'regular value == NM-TRAN definitions (specs/protected_funcs.json)', floor=9)
+    C01b.run_a11(chk, A11, repo)
+    A12 = chk.rule('A12', 'BLOCK(n) parameters are placed row by row into the lower triangle (iteration space of the filling '
+                          'loop for n = 3)', floor=1)
+    C01b.run_a12(chk, A12, repo)
+    A13 = chk.rule('A13', '$MODEL defaults: DEFDOSE, else DEPOT, else first dosable; DEFOBS, else CENTRAL, else first '
+                          '(preference chain evaluated with every candidate present)', floor=4)
+    C01b.run_a13(chk, A13, repo)
     from rules.C04 import run_a5
     run_a5(chk, A5, ['abbreviated_record.lark', 'code_record.lark', 'data_record.lark', 'option_record.lark',
                      'simulation_record.lark'])
